@@ -68,6 +68,8 @@ func main() {
 		runC05(cw, tier, seed)
 	case "c06":
 		runC06(cw, tier, seed)
+	case "c04":
+		runC04(cw, tier, seed)
 	case "c07":
 		runC07(cw, tier, seed)
 	case "c11":
